@@ -45,5 +45,8 @@ Lemma extracted_structure :
   Extracted.consumers_touch_dispatcher_chans = 0 /\
   Extracted.dispatcher_foreign_sends = 0 /\
   Extracted.authenticate_other_sends = 0 /\
-  Extracted.dispatcher_arms = 10.
+  Extracted.dispatcher_arms = 10 /\
+  (* the client side: every request method waits, unconditionally, on a fresh channel of its own *)
+  Extracted.clients_rendezvous_plain = true /\
+  Extracted.api_request_methods = 9.
 Proof. repeat split; reflexivity. Qed.
